@@ -83,14 +83,15 @@ Theorem C16_unwatched_silent : forall c pre steps id s,
   In (EUpdate id s) (r_events (Reporter.run c pre steps)) -> In id (c_watched c).
 Proof. exact unwatched_silent. Qed.
 
-(* A create/update of a watched object whose watch is running yields exactly one
+(* A create/update of a watched object whose watch is running (and whose status
+   computation returns: [p_slow = false]) yields exactly one
    update event carrying that version's status (for a Namespace/CRD object it
    may be followed by the listing of watches the hook starts); otherwise none. *)
 Theorem C16_one_event_per_mutation : forall c st id p m, (m = MAdd id p \/ m = MUpdate id p) ->
-  (r_stopped st = false -> allowed c id = true -> covered st id = true ->
+  (r_stopped st = false -> allowed c id = true -> covered st id = true -> p_slow p = false ->
      exists extra, r_events (mutate c st m) = r_events st ++ EUpdate id (p_status p) :: extra /\
                    Forall (upd_ok c) extra /\ (plain id -> extra = [])) /\
-  ((r_stopped st = true \/ allowed c id = false \/ covered st id = false) ->
+  ((r_stopped st = true \/ allowed c id = false \/ covered st id = false \/ p_slow p = true) ->
      r_events (mutate c st m) = r_events st).
 Proof. exact one_event_upsert. Qed.
 
@@ -110,6 +111,7 @@ Theorem C16_last_event_final : forall c pre steps1 m steps2,
   let st1 := Reporter.run c pre steps1 in
   r_stopped st1 = false -> allowed c (mut_id m) = true -> covered st1 (mut_id m) = true ->
   (forall id, m = MDelete id -> lookup (r_cluster st1) id <> None) ->
+  (forall id p, m = MAdd id p \/ m = MUpdate id p -> p_slow p = false) ->
   Forall (not_about (mut_id m)) steps2 ->
   let st := Reporter.run c pre (steps1 ++ SMut m :: steps2) in
   last_for (mut_id m) (r_events st) = Some (final_status st (mut_id m)).
@@ -149,7 +151,7 @@ Example C16_reporter_nonvacuous :
   let ns1 := mkOid GK_NS 0 1 in
   let cm := mkOid 2 1 1 in let other := mkOid 2 1 2 in
   let c := mkConfig ScopeNamespace [ns1; cm] [0; 1; 2] in
-  let cur := mkPayload SCurrent None in let prog := mkPayload SInProgress None in
+  let cur := mkPayload SCurrent None false in let prog := mkPayload SInProgress None false in
   let steps := [SSync; SMut (MAdd cm prog); SMut (MAdd other cur); SMut (MDelete ns1);
                 SMut (MUpdate cm cur); SMut (MAdd ns1 cur); SMut (MDelete cm);
                 SFail; SFail; SFail; SFail; SMut (MAdd cm cur)] in
@@ -158,6 +160,19 @@ Example C16_reporter_nonvacuous :
      EUpdate ns1 SCurrent; EUpdate cm SCurrent; EUpdate cm SNotFound; EError] /\
   covered (Reporter.run c [(ns1, cur)] [SSync; SMut (MAdd cm prog)]) cm = true /\
   covered (Reporter.run c [(ns1, cur)] [SSync; SMut (MAdd cm prog); SMut (MDelete ns1)]) cm = false.
+Proof. vm_compute. repeat split. Qed.
+
+(* a status read cancelled by a namespace deletion (no event, no error), then a
+   genuine fatal error when the watch is restarted: exactly one error event *)
+Example C16_benign_then_fatal :
+  let ns1 := mkOid GK_NS 0 1 in let sec := mkOid 3 1 1 in
+  let c := mkConfig ScopeNamespace [ns1; sec] [0; 1; 3] in
+  let cur := mkPayload SCurrent None false in let slow := mkPayload SCurrent None true in
+  let steps := [SSync; SMut (MUpdate sec slow); SMut (MDelete ns1); SMut (MDelete sec);
+                SMut (MAdd ns1 cur); SFail; SMut (MAdd sec cur)] in
+  r_events (Reporter.run c [(ns1, cur); (sec, cur)] steps) =
+    [EUpdate ns1 SCurrent; EUpdate sec SCurrent; ESync; EUpdate ns1 SNotFound; EUpdate ns1 SCurrent; EError] /\
+  r_stopped (Reporter.run c [(ns1, cur); (sec, cur)] steps) = true.
 Proof. vm_compute. repeat split. Qed.
 
 Print Assumptions C16_no_send_on_closed.
